@@ -1099,6 +1099,10 @@ def c04_cases(thorough):
     [R('D1', x, body=(Lit('A1', x),)), R('F', x, body=(('or', ((Lit('D1', x),), (Lit('B1', x),))),)), Ann('@OrderBy(F, "col0 desc");'), Ann('@Limit(F, 2);'), Ann('@OrderBy(D1, "col0");'), Ann('@Limit(D1, 1);'), Functor('G', 'F', (('A1', 'C1'),))],
     [R('D1', x, body=(Lit('A1', x),)), R('F', x, body=(('or', ((Lit('D1', x),), (Lit('B1', x),))),)), Ann('@OrderBy(D1, "col0");'), Ann('@Limit(D1, 1);'), Ann('@OrderBy(F, "col0 desc");'), Ann('@Limit(F, 2);'), Functor('G', 'F', (('A1', 'C1'),))],
   ]
+  # a grounded intermediate inside a functor applied twice: default table name (one table per copy) and an explicit one (finding F44)
+  for ann, fam in (('@Ground(D1);', 'FUNCTOR-X'), ('@Ground(D1, "logica_test.gtable");', 'FUNCTOR-GROUND-EXPLICIT')):
+    stmts = [Ann(ann), R('D1', x, body=(Lit('A1', x),)), R('F', x, body=(Lit('D1', x),)), Functor('G', 'F', (('A1', 'B1'),)), Functor('H', 'F', (('A1', 'C1'),)), R('Q', x, y, body=(Lit('G', x), Lit('H', y)))]
+    yield Case(fam, Program(stmts), ['Q', 'G', 'H', 'F'], schema='U4', dbs=dbs[::3], fact_dbs=[])
   for stmts in extra:
     p = Program(stmts)
     preds = [pp for pp in p.defined() if pp not in ('Thr', 'Thr1')]
